@@ -1,6 +1,1018 @@
-//! C02 — not built yet.
-use crate::report::{Ctx, Reporter};
+//! C02 — HTTP/1 responses: one per request, in order, self-framed, body-faithful.
+//!
+//! Obs: the bytes the server wrote, parsed by the reference response parser (told the request
+//! methods); what every handler's body script actually yielded.
+//! Oracles: exactly-once / in-order (`x-req-idx`), self-delimiting stream, framing rules,
+//! body fidelity against the script, and the metamorphic *context independence*: response i inside
+//! any pipeline and schedule equals the response to request i sent alone.
 
-pub fn run(_ctx: &Ctx, rep: &mut Reporter) {
-    rep.inconclusive("C02 monitor not built");
+use std::collections::HashMap;
+
+use serde_json::{json, Value};
+
+use crate::{
+    refmodel::h1_resp::{self, RefResp, RespFraming},
+    report::{guard, panic_site, Ctx, Reporter},
+    util::{esc_short, fnv, Rng},
+    world::{
+        conn::ConnCfg,
+        run::{run_scenario, Act, Outcome, Scenario},
+        svc::{fill_data, BStep, BodyKind, Conn, Prog, ReadMode, ReqRec, RespEnd},
+    },
+};
+
+#[derive(Clone, Debug, PartialEq)]
+pub struct ReqSpec {
+    pub method: &'static str,
+    pub v10: bool,
+    /// 0 no Connection header, 1 close, 2 keep-alive
+    pub conn: u8,
+    pub expect: bool,
+    pub body: usize,
+    pub chunked: bool,
+}
+
+impl ReqSpec {
+    pub fn get() -> Self {
+        ReqSpec { method: "GET", v10: false, conn: 0, expect: false, body: 0, chunked: false }
+    }
+    pub fn bytes(&self, i: usize) -> Vec<u8> {
+        let mut s = format!("{} /r{} HTTP/1.{}\r\nHost: t\r\n", self.method, i, if self.v10 { 0 } else { 1 });
+        match self.conn {
+            1 => s.push_str("Connection: close\r\n"),
+            2 => s.push_str("Connection: keep-alive\r\n"),
+            _ => {}
+        }
+        let body = fill_data(self.body, (i * 7) as u8);
+        let has_body = self.method == "POST";
+        if has_body {
+            if self.chunked {
+                s.push_str("Transfer-Encoding: chunked\r\n");
+            } else {
+                s.push_str(&format!("Content-Length: {}\r\n", body.len()));
+            }
+            if self.expect {
+                s.push_str("Expect: 100-continue\r\n");
+            }
+        }
+        s.push_str("\r\n");
+        let mut v = s.into_bytes();
+        if has_body {
+            if self.chunked {
+                let mut p = 0;
+                while p < body.len() {
+                    let n = (body.len() - p).min(1 + (p * 31 + 7) % 4000);
+                    v.extend_from_slice(format!("{:x}\r\n", n).as_bytes());
+                    v.extend_from_slice(&body[p..p + n]);
+                    v.extend_from_slice(b"\r\n");
+                    p += n;
+                }
+                v.extend_from_slice(b"0\r\n\r\n");
+            } else {
+                v.extend_from_slice(&body);
+            }
+        }
+        v
+    }
+    /// the request itself asks for (or implies) the connection to end after its response
+    pub fn wants_close(&self) -> bool {
+        self.conn == 1 || (self.v10 && self.conn != 2)
+    }
+    fn to_json(&self) -> Value {
+        json!({"method": self.method, "v10": self.v10, "conn": self.conn, "expect": self.expect, "body": self.body, "chunked": self.chunked})
+    }
+    fn from_json(v: &Value) -> Self {
+        ReqSpec {
+            method: match v["method"].as_str() {
+                Some("HEAD") => "HEAD",
+                Some("POST") => "POST",
+                _ => "GET",
+            },
+            v10: v["v10"].as_bool().unwrap_or(false),
+            conn: v["conn"].as_u64().unwrap_or(0) as u8,
+            expect: v["expect"].as_bool().unwrap_or(false),
+            body: v["body"].as_u64().unwrap_or(0) as usize,
+            chunked: v["chunked"].as_bool().unwrap_or(false),
+        }
+    }
+    fn tag(&self) -> String {
+        format!("{}{}{}{}", &self.method[..1], if self.v10 { "0" } else { "1" }, ["", "c", "k"][self.conn as usize], if self.expect { "e" } else { "" })
+    }
+}
+
+#[derive(Clone, Debug, PartialEq)]
+pub enum Ev {
+    Push(usize),
+    Gate(usize),
+    Credit(usize),
+}
+
+#[derive(Clone, Debug)]
+pub struct Case {
+    pub cfg: ConnCfg,
+    pub reqs: Vec<ReqSpec>,
+    pub progs: Vec<Prog>,
+    pub order: Vec<Ev>,
+    pub limited_credit: bool,
+}
+
+impl Case {
+    fn scenario(&self) -> Scenario {
+        let ngates = self.reqs.len() * 2;
+        let mut sc = Scenario::new(self.cfg.clone(), self.progs.clone(), ngates);
+        if self.limited_credit {
+            sc.initial_credit = Some(0);
+        }
+        for e in &self.order {
+            sc.acts.push(match e {
+                Ev::Push(i) => Act::Push(self.reqs[*i].bytes(*i)),
+                Ev::Gate(g) => Act::Gate(*g, 1),
+                Ev::Credit(n) => Act::Credit(*n),
+            });
+        }
+        sc.settle.push(Act::SetCredit(usize::MAX));
+        for g in 0..ngates {
+            sc.settle.push(Act::Gate(g, 1_000_000));
+        }
+        sc.settle.push(Act::Eof);
+        sc
+    }
+    fn to_json(&self) -> Value {
+        json!({
+            "cfg": self.cfg.to_json(),
+            "reqs": self.reqs.iter().map(|r| r.to_json()).collect::<Vec<_>>(),
+            "progs": self.progs.iter().map(|p| p.to_json()).collect::<Vec<_>>(),
+            "order": self.order.iter().map(|e| match e { Ev::Push(i) => json!({"push": i}), Ev::Gate(g) => json!({"gate": g}), Ev::Credit(n) => json!({"credit": n}) }).collect::<Vec<_>>(),
+            "limited_credit": self.limited_credit,
+        })
+    }
+    fn from_json(v: &Value) -> Case {
+        Case {
+            cfg: ConnCfg::from_json(&v["cfg"]),
+            reqs: v["reqs"].as_array().map(|a| a.iter().map(ReqSpec::from_json).collect()).unwrap_or_default(),
+            progs: v["progs"].as_array().map(|a| a.iter().map(Prog::from_json).collect()).unwrap_or_default(),
+            order: v["order"]
+                .as_array()
+                .map(|a| {
+                    a.iter()
+                        .filter_map(|e| {
+                            if let Some(i) = e["push"].as_u64() {
+                                Some(Ev::Push(i as usize))
+                            } else if let Some(g) = e["gate"].as_u64() {
+                                Some(Ev::Gate(g as usize))
+                            } else {
+                                e["credit"].as_u64().map(|n| Ev::Credit(n as usize))
+                            }
+                        })
+                        .collect()
+                })
+                .unwrap_or_default(),
+            limited_credit: v["limited_credit"].as_bool().unwrap_or(false),
+        }
+    }
+    fn shape(&self) -> String {
+        // schedule shape: order of pushes / gate openings, with credit grants collapsed
+        let mut s = String::new();
+        let mut last_c = false;
+        for e in &self.order {
+            match e {
+                Ev::Push(i) => {
+                    s.push_str(&format!("P{i}"));
+                    last_c = false;
+                }
+                Ev::Gate(g) => {
+                    s.push_str(&format!("g{g}"));
+                    last_c = false;
+                }
+                Ev::Credit(_) => {
+                    if !last_c {
+                        s.push('c');
+                    }
+                    last_c = true;
+                }
+            }
+        }
+        s
+    }
+}
+
+fn kind_tag(p: &Prog) -> String {
+    let k = match p.kind {
+        BodyKind::None => "N",
+        BodyKind::Bytes => "B",
+        BodyKind::SizedStream(_) => "S",
+        BodyKind::BodyStream => "T",
+        BodyKind::CustomStream => "C",
+        BodyKind::CustomSized(_) => "Z",
+    };
+    let total: usize = p.steps.iter().map(|s| if let BStep::Data(d) = s { d.len() } else { 0 }).sum();
+    let declared = match p.kind {
+        BodyKind::SizedStream(n) | BodyKind::CustomSized(n) => Some(n as usize),
+        _ => None,
+    };
+    let rel = match declared {
+        Some(d) if d > total => "short",
+        Some(d) if d < total => "long",
+        _ => "",
+    };
+    let empty = p.steps.iter().any(|s| matches!(s, BStep::Data(d) if d.is_empty()));
+    let err = p.steps.iter().any(|s| matches!(s, BStep::Err));
+    let big = p.steps.iter().any(|s| matches!(s, BStep::Data(d) if d.len() > 32_768));
+    format!(
+        "{k}{}{rel}{}{}{}{}{}{}",
+        p.status,
+        if empty { "+e" } else { "" },
+        if err { "+x" } else { "" },
+        if big { "+big" } else { "" },
+        if p.no_chunking.is_some() { "+nc" } else { "" },
+        if p.fail { "+fail" } else { "" },
+        match p.conn {
+            Conn::Default => "",
+            Conn::Close => "+close",
+            Conn::KeepAlive => "+ka",
+        },
+    )
+}
+
+fn bodiless(method: &str, status: u16) -> bool {
+    method == "HEAD" || (100..200).contains(&status) || status == 204 || status == 304
+}
+
+/// (bytes the script yields before it ends or errors, does it end with an error, declared size)
+fn script_facts(p: &Prog) -> (u64, bool, Option<u64>) {
+    let mut total = 0u64;
+    let mut err = false;
+    for s in &p.steps {
+        match s {
+            BStep::Data(d) => total += d.len() as u64,
+            BStep::Err => {
+                err = true;
+                break;
+            }
+            BStep::Wait(_) => {}
+        }
+    }
+    let declared = match (&p.kind, p.no_chunking) {
+        (BodyKind::SizedStream(n), _) | (BodyKind::CustomSized(n), _) => Some(*n),
+        (BodyKind::BodyStream | BodyKind::CustomStream, Some(n)) => Some(n),
+        _ => None,
+    };
+    (total, err, declared)
+}
+
+fn is_stream_kind(p: &Prog) -> bool {
+    !p.fail && !matches!(p.kind, BodyKind::None | BodyKind::Bytes)
+}
+
+/// The body script errors or ends short of its declared size: terminating the connection (with the
+/// response missing or cut short) is a legitimate outcome — also for HEAD / 204 / 304, whose body
+/// is polled although it is not transmitted.
+fn may_terminate(p: &Prog) -> bool {
+    if !is_stream_kind(p) {
+        return false;
+    }
+    let (total, err, declared) = script_facts(p);
+    err || matches!(declared, Some(n) if total < n)
+}
+
+/// The transmitted body cannot be completed faithfully: a complete-looking message is a violation.
+fn body_fails(p: &Prog, method: &str) -> bool {
+    if !is_stream_kind(p) || bodiless(method, p.status) {
+        return false;
+    }
+    let (total, err, declared) = script_facts(p);
+    match declared {
+        Some(n) => total < n,
+        None => err,
+    }
+}
+
+/// The body a conforming client must decode for a complete response.
+fn expected_body(p: &Prog, rec: &ReqRec, method: &str) -> Vec<u8> {
+    if bodiless(method, p.status) {
+        return vec![];
+    }
+    if p.fail {
+        return b"svc-error".to_vec();
+    }
+    let mut b = rec.resp_yielded.clone();
+    let declared = match (&p.kind, p.no_chunking) {
+        (BodyKind::SizedStream(n), _) | (BodyKind::CustomSized(n), _) => Some(*n as usize),
+        (BodyKind::BodyStream | BodyKind::CustomStream, Some(n)) => Some(n as usize),
+        _ => None,
+    };
+    if let Some(n) = declared {
+        b.truncate(n);
+    }
+    b
+}
+
+struct Verdict {
+    class: &'static str,
+    sig: String,
+    detail: String,
+}
+
+fn v(class: &'static str, sig: String, detail: String) -> Verdict {
+    Verdict { class, sig, detail }
+}
+
+/// response head with the volatile / index-dependent header lines removed, plus the raw body bytes
+fn normalised(out: &[u8], r: &RefResp) -> Vec<u8> {
+    let head = &out[r.start..r.head_end];
+    let mut n = Vec::with_capacity(r.end - r.start);
+    for line in head.split_inclusive(|&b| b == b'\n') {
+        let l = line.to_ascii_lowercase();
+        if l.starts_with(b"date:") || l.starts_with(b"x-req-idx:") {
+            continue;
+        }
+        n.extend_from_slice(line);
+    }
+    n.extend_from_slice(&out[r.head_end..r.end]);
+    n
+}
+
+struct Judged {
+    verdicts: Vec<Verdict>,
+    /// normalised bytes of each complete, judged final response (by request index)
+    complete: Vec<(usize, Vec<u8>)>,
+    n_final: usize,
+    n_interim: usize,
+    n_incomplete_legit: usize,
+    n_lost_to_termination: usize,
+    n_bytes_after_close_delimited: usize,
+    complete_close_delimited: usize,
+    cut: Option<usize>,
+}
+
+fn judge(case: &Case, oc: &Outcome) -> Judged {
+    let mut out = Judged { verdicts: vec![], complete: vec![], n_final: 0, n_interim: 0, n_incomplete_legit: 0, n_lost_to_termination: 0, n_bytes_after_close_delimited: 0, complete_close_delimited: 0, cut: None };
+    let n = case.reqs.len();
+    let sigbase = |i: usize| format!("{} {}", case.reqs[i].tag(), kind_tag(&case.progs[i]));
+    if oc.livelock {
+        out.verdicts.push(v("livelock", "poll-cap".into(), "connection kept waking itself beyond the poll cap".into()));
+        return out;
+    }
+    // first request after which the connection legitimately ends (C03 judges what follows)
+    let cut = (0..n).find(|&i| {
+        case.reqs[i].wants_close() || case.cfg.keep_alive_s.is_none() || case.progs[i].conn == Conn::Close || may_terminate(&case.progs[i])
+            // a close-delimited body ends the connection by definition
+            || (case.reqs[i].v10 && matches!(case.progs[i].kind, BodyKind::BodyStream | BodyKind::CustomStream) && !case.progs[i].fail)
+    });
+    out.cut = cut;
+    let last = cut.unwrap_or(n.saturating_sub(1));
+    // A later response whose body failed terminates the connection at once; earlier responses
+    // that were complete but still buffered (all handlers ready within one poll) are lost with it.
+    // The statement allows termination on body failure and does not demand a flush first, so this
+    // is tolerated and counted.
+    let term_by = if matches!(oc.result, Some(Err(_))) { (0..n.min(oc.reqs.len())).filter(|&c| may_terminate(&case.progs[c])).max() } else { None };
+    let methods: Vec<String> = case.reqs.iter().map(|r| r.method.to_string()).collect();
+    let rp = h1_resp::parse_responses(&oc.out, &|i| methods.get(i).cloned(), true);
+
+    let mut next_final = 0usize;
+    let mut pending_interim = 0usize;
+    let mut prev_final: Option<(usize, &RefResp)> = None;
+    for r in &rp.resps {
+        if r.is_interim() {
+            out.n_interim += 1;
+            pending_interim += 1;
+            let i = next_final;
+            if i > last {
+                break;
+            }
+            if r.status != 100 || i >= n || !case.reqs[i].expect || pending_interim > 1 {
+                out.verdicts.push(v("unexpected-interim", format!("status={}", r.status), format!("interim {} before the final response of request #{i} ({})", r.status, if i < n { sigbase(i) } else { "none".into() })));
+                return out;
+            }
+            continue;
+        }
+        pending_interim = 0;
+        let i = next_final;
+        next_final += 1;
+        if i > last {
+            break;
+        }
+        prev_final = Some((i, r));
+        if i >= n {
+            out.verdicts.push(v("extra-response", format!("status={}", r.status), format!("a {} response beyond the {n} requests sent", r.status)));
+            return out;
+        }
+        out.n_final += 1;
+        let (rq, p) = (&case.reqs[i], &case.progs[i]);
+        let rec = oc.reqs.get(i);
+        if r.req_idx_header() != Some(i) {
+            out.verdicts.push(v(
+                "response-order",
+                sigbase(i),
+                format!("final response #{i} on the wire carries x-req-idx {:?} (status {})", r.req_idx_header(), r.status),
+            ));
+            return out;
+        }
+        let Some(rec) = rec else {
+            out.verdicts.push(v("response-without-request", sigbase(i), format!("response #{i} on the wire but handler #{i} never ran")));
+            return out;
+        };
+        if r.status != p.status {
+            out.verdicts.push(v("status-differs", sigbase(i), format!("response #{i} status {} but the handler answered {}", r.status, p.status)));
+        }
+        let want_v = if rq.v10 { 10 } else { 11 };
+        if r.version != want_v {
+            out.verdicts.push(v("version-mismatch", sigbase(i), format!("response #{i} is HTTP/1.{} for an HTTP/1.{} request", r.version % 10, want_v % 10)));
+        }
+        let has_te = r.header("transfer-encoding").is_some();
+        let has_cl = r.header("content-length").is_some();
+        if has_te && has_cl {
+            out.verdicts.push(v("cl-and-te", sigbase(i), format!("response #{i} carries both content-length and transfer-encoding")));
+        }
+        if has_te && rq.v10 {
+            out.verdicts.push(v("te-on-http10-response", sigbase(i), format!("response #{i} to an HTTP/1.0 request carries transfer-encoding: {}", esc_short(r.header("transfer-encoding").unwrap_or(b""), 30))));
+        }
+        if r.header_count("content-length") > 1 || r.header_count("transfer-encoding") > 1 {
+            out.verdicts.push(v("duplicate-framing-header", sigbase(i), format!("response #{i} repeats content-length or transfer-encoding")));
+        }
+        let fails = body_fails(p, rq.method);
+        let want = expected_body(p, rec, rq.method);
+        if r.complete {
+            if fails && r.framing != RespFraming::CloseDelimited {
+                out.verdicts.push(v(
+                    "failed-body-looks-complete",
+                    sigbase(i),
+                    format!("response #{i}: the body script failed / ended short (yielded {} bytes) but the message on the wire is complete ({:?}, {} body bytes)", rec.resp_yielded.len(), r.framing, r.body.len()),
+                ));
+            } else if fails {
+                if !want.starts_with(&r.body) {
+                    out.verdicts.push(v("body-differs", sigbase(i), format!("response #{i}: close-delimited body is not a prefix of what the script yielded")));
+                }
+            } else if r.framing == RespFraming::CloseDelimited {
+                // anything after a close-delimited body belongs to it by definition; whether the
+                // server wrote more after announcing the close is C03's question
+                if matches!(term_by, Some(c) if i < c) && want.starts_with(&r.body) {
+                    out.n_lost_to_termination += 1;
+                } else if !r.body.starts_with(&want) {
+                    out.verdicts.push(v("body-differs", sigbase(i), format!("response #{i}: close-delimited body ({} bytes) does not start with the {} bytes the handler's body produced", r.body.len(), want.len())));
+                } else {
+                    if r.body.len() > want.len() {
+                        out.n_bytes_after_close_delimited += 1;
+                    }
+                    out.complete_close_delimited += 1;
+                }
+            } else if r.body != want {
+                let at = r.body.iter().zip(&want).position(|(a, b)| a != b).unwrap_or(r.body.len().min(want.len()));
+                out.verdicts.push(v(
+                    "body-differs",
+                    sigbase(i),
+                    format!("response #{i} ({:?}): client decodes {} bytes, the handler's body produced {} (first difference at {at}); chunks yielded {:?}", r.framing, r.body.len(), want.len(), rec.resp_chunks),
+                ));
+            } else {
+                out.complete.push((i, normalised(&oc.out, r)));
+            }
+        } else {
+            // incomplete message followed by EOF: only when the body really failed
+            if matches!(term_by, Some(c) if i < c) {
+                out.n_lost_to_termination += 1;
+                return out;
+            } else if !may_terminate(p) {
+                out.verdicts.push(v(
+                    "response-truncated",
+                    sigbase(i),
+                    format!("response #{i} ends inside the message ({:?}, {} of {} body bytes) although its body script completed (resp_end {:?}); connection result {:?}", r.framing, r.body.len(), want.len(), rec.resp_end, oc.result),
+                ));
+            } else {
+                out.n_incomplete_legit += 1;
+                if !want.starts_with(&r.body) && r.framing != RespFraming::Chunked {
+                    out.verdicts.push(v("body-differs", sigbase(i), format!("response #{i}: partial body is not a prefix of what the script yielded")));
+                }
+                if !oc.closed {
+                    out.verdicts.push(v("failed-body-not-closed", sigbase(i), format!("response #{i}: body failed but the connection was not terminated")));
+                }
+            }
+        }
+    }
+    if let Some((at, why)) = rp.malformed_at {
+        // only judged when it lies inside the judged prefix of the stream
+        let parsed_finals = rp.resps.iter().filter(|r| !r.is_interim()).count();
+        if parsed_finals <= last + 1 {
+            let i = parsed_finals.saturating_sub(1).min(n.saturating_sub(1));
+            // body bytes written after the head of a response that must not have a body
+            if let Some((pi, r)) = prev_final {
+                let produced = oc.reqs.get(pi).map(|x| !x.resp_yielded.is_empty()).unwrap_or(false) || is_stream_kind(&case.progs[pi]);
+                if pi == i && r.end == at && r.framing == RespFraming::NoBody && produced && pi < n {
+                    let sig = if case.reqs[pi].method == "HEAD" { "method=HEAD".to_string() } else { format!("status={}", r.status) };
+                    out.verdicts.push(v(
+                        "body-after-bodiless-head",
+                        sig,
+                        format!("response #{pi} ({} to {}) must not have a body, but bytes of its body / body framing follow the head on the wire at offset {at}: …{}", r.status, case.reqs[pi].method, esc_short(&oc.out[at.saturating_sub(40)..(at + 40).min(oc.out.len())], 160)),
+                    ));
+                    return out;
+                }
+            }
+            out.verdicts.push(v(
+                "stream-malformed",
+                format!("{} after={}", why, if parsed_finals == 0 { "start".into() } else { sigbase(i) }),
+                format!("the response stream stops being well-formed at offset {at} ({why}): …{}", esc_short(&oc.out[at.saturating_sub(60)..(at + 60).min(oc.out.len())], 200)),
+            ));
+        }
+        return out;
+    }
+    // every request up to the cut must have been answered (all gates open, peer finished sending)
+    let answered = next_final.min(last + 1);
+    if answered < last + 1 {
+        // the only legitimate reason: the response at `answered` failed before anything was flushed
+        let i = answered;
+        let legit = cut == Some(i) && may_terminate(&case.progs[i]);
+        if matches!(term_by, Some(c) if i < c) {
+            out.n_lost_to_termination += 1;
+        } else if !legit && !rp.incomplete_tail {
+            out.verdicts.push(v(
+                "missing-response",
+                sigbase(i),
+                format!("request #{i} of {n} was never answered: {} final responses on the wire, {} handlers ran, connection result {:?}, closed={}", next_final, oc.reqs.len(), oc.result, oc.closed),
+            ));
+        } else if legit {
+            out.n_incomplete_legit += 1;
+        }
+    }
+    if !oc.done && cut.is_none() {
+        // peer has half-closed and everything is answered: the connection must end (C04 judges
+        // stalls in depth; here it only guards the exactly-once accounting)
+        out.verdicts.push(v("not-terminated", "after-eof".into(), format!("all {n} requests answered and peer closed, but the connection task is still pending (stalled={})", oc.stalled)));
+    }
+    out
+}
+
+fn replay_json(case: &Case) -> Value {
+    case.to_json()
+}
+
+struct Solo {
+    cache: HashMap<u64, Option<Vec<u8>>>,
+}
+
+impl Solo {
+    /// normalised bytes of the response to request `i` of `case` when sent alone
+    fn get(&mut self, case: &Case, i: usize, rep: &mut Reporter) -> Option<Vec<u8>> {
+        let key = fnv(format!("{:?}|{:?}|{:?}", case.reqs[i], case.progs[i], case.cfg).as_bytes());
+        if let Some(c) = self.cache.get(&key) {
+            rep.count("solo_cache_hits", 1);
+            return c.clone();
+        }
+        // same request bytes (index-dependent path and body), same program, gates wide open
+        let mut prog = case.progs[i].clone();
+        prog.post_gate = prog.post_gate.map(|_| 0);
+        for s in prog.steps.iter_mut() {
+            if let BStep::Wait(g) = s {
+                *g = 1;
+            }
+        }
+        let mut sc = Scenario::new(case.cfg.clone(), vec![prog], 2);
+        sc.acts.push(Act::Gate(0, 1_000_000));
+        sc.acts.push(Act::Gate(1, 1_000_000));
+        sc.acts.push(Act::Push(case.reqs[i].bytes(i)));
+        sc.settle.push(Act::Eof);
+        rep.count("solo_runs", 1);
+        let res = match guard(|| run_scenario(&sc)) {
+            Ok(oc) => {
+                let m = case.reqs[i].method.to_string();
+                let rp = h1_resp::parse_responses(&oc.out, &|_| Some(m.clone()), true);
+                rp.resps.iter().find(|r| !r.is_interim()).filter(|r| r.complete && rp.malformed_at.is_none()).map(|r| normalised(&oc.out, r))
+            }
+            Err(_) => None,
+        };
+        self.cache.insert(key, res.clone());
+        res
+    }
+}
+
+fn eval_case(case: &Case, solo: &mut Solo, rep: &mut Reporter) {
+    rep.eval();
+    let sc = case.scenario();
+    let oc = match guard(|| run_scenario(&sc)) {
+        Ok(o) => o,
+        Err(p) => {
+            rep.violation("panic", &panic_site(&p), &format!("panic while serving: {p}"), replay_json(case));
+            return;
+        }
+    };
+    let j = judge(case, &oc);
+    rep.count("final_responses_checked", j.n_final as u64);
+    rep.count("interim_responses_seen", j.n_interim as u64);
+    rep.count("failed_bodies_seen_terminated", j.n_incomplete_legit as u64);
+    rep.count("earlier_responses_lost_to_termination_by_later_body_failure", j.n_lost_to_termination as u64);
+    rep.count("close_delimited_responses_checked", j.complete_close_delimited as u64);
+    rep.count("close_delimited_followed_by_more_bytes(C03)", j.n_bytes_after_close_delimited as u64);
+    rep.count("handler_invocations", oc.reqs.len() as u64);
+    if j.cut.is_some() {
+        rep.count("cases_with_close_cut", 1);
+    }
+    if oc.partial_writes > 0 {
+        rep.count("cases_with_partial_writes", 1);
+    }
+    // how many later requests had already been dispatched/decoded when handler i responded:
+    // approximated by "bytes of later requests already read by the server"
+    for (i, r) in oc.reqs.iter().enumerate() {
+        if r.resp_end == RespEnd::Done {
+            rep.count(&format!("kind:{}", kind_tag(&case.progs[i]).chars().next().unwrap_or('?')), 1);
+        }
+    }
+    for vd in &j.verdicts {
+        let detail = format!("{} | reqs=[{}] progs=[{}] order={} credit_limited={}", vd.detail, case.reqs.iter().map(|r| r.tag()).collect::<Vec<_>>().join(","), case.progs.iter().map(kind_tag).collect::<Vec<_>>().join(","), case.shape(), case.limited_credit);
+        rep.violation(vd.class, &vd.sig, &detail, replay_json(case));
+    }
+    if !j.verdicts.is_empty() {
+        return;
+    }
+    // context independence
+    for (i, bytes) in &j.complete {
+        if case.reqs.len() == 1 && case.order.len() == 1 {
+            continue; // this *is* the solo run
+        }
+        match solo.get(case, *i, rep) {
+            Some(alone) => {
+                rep.count("solo_comparisons", 1);
+                if &alone != bytes {
+                    let at = alone.iter().zip(bytes.iter()).position(|(a, b)| a != b).unwrap_or(alone.len().min(bytes.len()));
+                    rep.violation(
+                        "context-dependent-response",
+                        &format!("{} {}", case.reqs[*i].tag(), kind_tag(&case.progs[*i])),
+                        &format!(
+                            "response #{i} differs from the response to the same request sent alone (first difference at byte {at}): in pipeline …{}… alone …{}… | reqs=[{}] progs=[{}] order={}",
+                            esc_short(&bytes[at.saturating_sub(40)..(at + 60).min(bytes.len())], 160),
+                            esc_short(&alone[at.saturating_sub(40)..(at + 60).min(alone.len())], 160),
+                            case.reqs.iter().map(|r| r.tag()).collect::<Vec<_>>().join(","),
+                            case.progs.iter().map(kind_tag).collect::<Vec<_>>().join(","),
+                            case.shape()
+                        ),
+                        replay_json(case),
+                    );
+                }
+            }
+            None => rep.count("solo_not_comparable", 1),
+        }
+    }
+}
+
+fn case_sig(case: &Case) -> String {
+    // coarse on purpose: request tuple, body-kind letters with status class, and the schedule with
+    // gate numbers reduced to handler/body (diversity, not volume)
+    let kinds: Vec<String> = case.progs.iter().map(|p| { let t = kind_tag(p); format!("{}{}", &t[..1], p.status / 100) }).collect();
+    let mut shape = String::new();
+    for e in &case.order {
+        shape.push(match e {
+            Ev::Push(_) => 'P',
+            Ev::Gate(g) if g % 2 == 0 => 'h',
+            Ev::Gate(_) => 'b',
+            Ev::Credit(_) => 'c',
+        });
+    }
+    format!("{}|{}|{}", case.reqs.iter().map(|r| r.tag()).collect::<Vec<_>>().join(","), kinds.join(","), shape)
+}
+
+// ------------------------------------------------------------------------------------ generators
+
+fn data(n: usize, i: usize, k: usize) -> BStep {
+    BStep::Data(fill_data(n, (i * 13 + k * 5 + 1) as u8))
+}
+
+/// request/program "atoms" for the exhaustive schedule enumeration; gates: 2i handler, 2i+1 body
+fn atoms() -> Vec<(&'static str, ReqSpec, Box<dyn Fn(usize) -> Prog>)> {
+    let g = ReqSpec::get;
+    let mut v: Vec<(&'static str, ReqSpec, Box<dyn Fn(usize) -> Prog>)> = vec![];
+    v.push(("get-bytes", g(), Box::new(|i| Prog { post_gate: Some(2 * i), steps: vec![data(2, i, 0)], ..Default::default() })));
+    v.push(("head-bytes", ReqSpec { method: "HEAD", ..g() }, Box::new(|i| Prog { post_gate: Some(2 * i), steps: vec![data(10, i, 0)], ..Default::default() })));
+    v.push(("get10ka-bytes", ReqSpec { v10: true, conn: 2, ..g() }, Box::new(|i| Prog { post_gate: Some(2 * i), steps: vec![data(3, i, 0)], ..Default::default() })));
+    v.push((
+        "post-stream",
+        ReqSpec { method: "POST", body: 5, ..g() },
+        Box::new(|i| Prog { post_gate: Some(2 * i), kind: BodyKind::BodyStream, steps: vec![data(3, i, 0), BStep::Wait(2 * i + 1), data(4, i, 1)], ..Default::default() }),
+    ));
+    v.push((
+        "get-sized",
+        g(),
+        Box::new(|i| Prog { post_gate: Some(2 * i), kind: BodyKind::SizedStream(7), steps: vec![data(3, i, 0), BStep::Wait(2 * i + 1), data(4, i, 1)], ..Default::default() }),
+    ));
+    v.push(("get-204", g(), Box::new(|i| Prog { post_gate: Some(2 * i), status: 204, kind: BodyKind::None, steps: vec![], ..Default::default() })));
+    v.push(("get-304", g(), Box::new(|i| Prog { post_gate: Some(2 * i), status: 304, kind: BodyKind::None, steps: vec![], ..Default::default() })));
+    v.push((
+        "post-chunked-expect",
+        ReqSpec { method: "POST", body: 9, chunked: true, expect: true, ..g() },
+        Box::new(|i| Prog { post_gate: Some(2 * i), steps: vec![data(4, i, 0)], ..Default::default() }),
+    ));
+    v.push((
+        "head-stream",
+        ReqSpec { method: "HEAD", ..g() },
+        Box::new(|i| Prog { post_gate: Some(2 * i), kind: BodyKind::BodyStream, steps: vec![data(3, i, 0), BStep::Wait(2 * i + 1), data(4, i, 1)], ..Default::default() }),
+    ));
+    v.push(("get-fail", g(), Box::new(|i| Prog { post_gate: Some(2 * i), status: 500, fail: true, ..Default::default() })));
+    v.push((
+        "get-custom",
+        g(),
+        Box::new(|i| Prog { post_gate: Some(2 * i), kind: BodyKind::CustomStream, steps: vec![data(3, i, 0), BStep::Wait(2 * i + 1), data(0, i, 1), data(4, i, 2)], ..Default::default() }),
+    ));
+    v.push(("get10-close", ReqSpec { v10: true, ..g() }, Box::new(|i| Prog { post_gate: Some(2 * i), steps: vec![data(3, i, 0)], ..Default::default() })));
+    v
+}
+
+/// all interleavings of the event lists (order inside each list preserved)
+fn interleavings(lists: &[Vec<Ev>], cap: usize) -> Vec<Vec<Ev>> {
+    fn rec(lists: &[Vec<Ev>], pos: &mut Vec<usize>, cur: &mut Vec<Ev>, out: &mut Vec<Vec<Ev>>, cap: usize) {
+        if out.len() >= cap {
+            return;
+        }
+        let mut any = false;
+        for k in 0..lists.len() {
+            if pos[k] < lists[k].len() {
+                any = true;
+                cur.push(lists[k][pos[k]].clone());
+                pos[k] += 1;
+                rec(lists, pos, cur, out, cap);
+                pos[k] -= 1;
+                cur.pop();
+            }
+        }
+        if !any {
+            out.push(cur.clone());
+        }
+    }
+    let mut out = vec![];
+    rec(lists, &mut vec![0; lists.len()], &mut vec![], &mut out, cap);
+    out
+}
+
+fn nwaits(p: &Prog) -> usize {
+    p.steps.iter().filter(|s| matches!(s, BStep::Wait(_))).count()
+}
+
+pub fn gen_request(rng: &mut Rng, last: bool) -> ReqSpec {
+    let method = *rng.pick(&["GET", "GET", "HEAD", "POST", "POST"]);
+    let v10 = rng.chance(1, 4);
+    let conn = if v10 {
+        if last && rng.chance(1, 3) {
+            0
+        } else {
+            2
+        }
+    } else if last && rng.chance(1, 5) {
+        1
+    } else if rng.chance(1, 8) {
+        2
+    } else {
+        0
+    };
+    let chunked = !v10 && rng.chance(1, 2);
+    let body = *rng.pick(&[0usize, 1, 5, 300, 5000, 40_000]);
+    ReqSpec { method, v10, conn, expect: method == "POST" && !v10 && rng.chance(1, 4), body: if method == "POST" { body } else { 0 }, chunked }
+}
+
+pub fn gen_prog(rng: &mut Rng, i: usize, gated: bool) -> Prog {
+    let mut p = Prog { post_gate: if gated { Some(2 * i) } else { None }, ..Default::default() };
+    p.status = *rng.pick(&[200u16, 200, 200, 200, 404, 500, 204, 304, 201]);
+    if rng.chance(1, 25) {
+        p.fail = true;
+        p.status = 500;
+        return p;
+    }
+    let kind = rng.below(8);
+    let nchunks = rng.below(5);
+    let mut steps = vec![];
+    let mut total = 0usize;
+    for k in 0..nchunks {
+        if rng.chance(1, 3) {
+            steps.push(BStep::Wait(2 * i + 1));
+        }
+        let n = *rng.pick(&[0usize, 1, 1, 5, 5, 100, 5000, 40_000]);
+        total += n;
+        steps.push(data(n, i, k));
+    }
+    if rng.chance(1, 6) {
+        steps.push(BStep::Wait(2 * i + 1));
+    }
+    match kind {
+        0 | 1 => {
+            p.kind = BodyKind::Bytes;
+            steps.retain(|s| matches!(s, BStep::Data(_)));
+        }
+        2 => {
+            p.kind = BodyKind::BodyStream;
+        }
+        3 => {
+            p.kind = BodyKind::CustomStream;
+        }
+        4 | 5 => {
+            let declared = match rng.below(6) {
+                0 => total.saturating_sub(rng.range(1, 3)),
+                1 => total + rng.range(1, 3),
+                _ => total,
+            };
+            p.kind = if kind == 4 { BodyKind::SizedStream(declared as u64) } else { BodyKind::CustomSized(declared as u64) };
+        }
+        6 => {
+            p.kind = BodyKind::BodyStream;
+            let declared = match rng.below(4) {
+                0 => total.saturating_sub(1),
+                1 => total + 2,
+                _ => total,
+            };
+            p.no_chunking = Some(declared as u64);
+        }
+        _ => {
+            p.kind = BodyKind::None;
+            steps.clear();
+            if !rng.chance(1, 6) {
+                p.status = *rng.pick(&[204u16, 304]);
+            } else {
+                // `body::None` on a status that allows a body is API misuse (the docs reserve it
+                // for responses that forbid payloads): not generated
+                p.status = 204;
+            }
+        }
+    }
+    if !matches!(p.kind, BodyKind::Bytes | BodyKind::None) && rng.chance(1, 10) {
+        let at = rng.below(steps.len() + 1);
+        steps.insert(at, BStep::Err);
+        steps.truncate(at + 1);
+    }
+    p.steps = steps;
+    // a 304 with a body runs into the recorded known finding (body bytes after the head) and
+    // hides everything behind it in the same case: keep it rare
+    if p.status == 304 && !rng.chance(1, 6) {
+        p.kind = BodyKind::None;
+        p.steps.clear();
+        p.no_chunking = None;
+    }
+    if rng.chance(1, 8) {
+        p.headers.push(("content-length".into(), format!("{}", rng.below(50))));
+    }
+    // (a 304 deliberately retains manually set framing headers, so a handler-set
+    // Transfer-Encoding on a 304 is the handler's own statement, not the server's)
+    if rng.chance(1, 16) && p.headers.is_empty() && p.no_chunking.is_none() && p.status != 304 {
+        p.headers.push(("transfer-encoding".into(), "chunked".into()));
+    }
+    if rng.chance(1, 12) {
+        p.conn = Conn::KeepAlive;
+    } else if rng.chance(1, 16) {
+        p.conn = Conn::Close;
+    }
+    p.read = ReadMode::All;
+    p
+}
+
+fn gen_case(rng: &mut Rng) -> Case {
+    let n = match rng.below(10) {
+        0 | 1 => 1,
+        2..=5 => 2,
+        6 | 7 => 3,
+        8 => 4,
+        _ => 6,
+    };
+    let mut cfg = ConnCfg::persistent();
+    if rng.chance(1, 25) {
+        cfg.keep_alive_s = None;
+    }
+    if rng.chance(1, 6) {
+        cfg.write_buf = Some(*rng.pick(&[1usize, 512, 4096, 100_000]));
+    }
+    let reqs: Vec<ReqSpec> = (0..n).map(|i| gen_request(rng, i + 1 == n)).collect();
+    let progs: Vec<Prog> = (0..n).map(|i| { let gated = rng.chance(2, 3); gen_prog(rng, i, gated) }).collect();
+    // events: pushes in order; each handler gate once (if gated); each body wait once
+    let mut lists: Vec<Vec<Ev>> = vec![(0..n).map(Ev::Push).collect()];
+    for (i, p) in progs.iter().enumerate() {
+        if p.post_gate.is_some() {
+            lists.push(vec![Ev::Gate(2 * i)]);
+        }
+        let w = nwaits(p);
+        if w > 0 {
+            lists.push((0..w).map(|_| Ev::Gate(2 * i + 1)).collect());
+        }
+    }
+    let limited = rng.chance(1, 4);
+    if limited {
+        let k = rng.range(1, 6);
+        lists.push((0..k).map(|_| Ev::Credit(*rng.pick(&[1usize, 7, 100, 5000, 70_000]))).collect());
+    }
+    // random interleaving; bias: with prob 1/3 deliver all requests first (deep pipelining)
+    let mut order = vec![];
+    let mut pos = vec![0usize; lists.len()];
+    let all_first = rng.chance(1, 3);
+    if all_first {
+        order.extend(lists[0].iter().cloned());
+        pos[0] = lists[0].len();
+    }
+    loop {
+        let avail: Vec<usize> = (0..lists.len()).filter(|&k| pos[k] < lists[k].len()).collect();
+        if avail.is_empty() {
+            break;
+        }
+        let k = *rng.pick(&avail);
+        order.push(lists[k][pos[k]].clone());
+        pos[k] += 1;
+    }
+    Case { cfg, reqs, progs, order, limited_credit: limited }
+}
+
+pub fn run(ctx: &Ctx, rep: &mut Reporter) {
+    let mut solo = Solo { cache: HashMap::new() };
+    if let Some(r) = &ctx.replay {
+        let case = Case::from_json(r);
+        eval_case(&case, &mut solo, rep);
+        rep.sig("replay-a");
+        rep.sig("replay-b");
+        return;
+    }
+
+    // ---- Phase A: every schedule of every ordered pair (thorough: also triples) of atoms
+    let at = atoms();
+    let mut idx = 0u64;
+    let mut complete = true;
+    let na = at.len();
+    for a in 0..na {
+        for b in 0..na {
+            // a request that ends the connection can only come last
+            if at[a].1.wants_close() {
+                continue;
+            }
+            let reqs = vec![at[a].1.clone(), at[b].1.clone()];
+            let progs = vec![(at[a].2)(0), (at[b].2)(1)];
+            let mut lists: Vec<Vec<Ev>> = vec![vec![Ev::Push(0), Ev::Push(1)]];
+            for (i, p) in progs.iter().enumerate() {
+                lists.push(vec![Ev::Gate(2 * i)]);
+                let w = nwaits(p);
+                if w > 0 {
+                    lists.push((0..w).map(|_| Ev::Gate(2 * i + 1)).collect());
+                }
+            }
+            for order in interleavings(&lists, 100_000) {
+                idx += 1;
+                if !ctx.mine(idx) {
+                    continue;
+                }
+                if ctx.out_of_time() {
+                    complete = false;
+                    break;
+                }
+                let case = Case { cfg: ConnCfg::persistent(), reqs: reqs.clone(), progs: progs.clone(), order, limited_credit: false };
+                eval_case(&case, &mut solo, rep);
+                rep.sig(&case_sig(&case));
+                if idx == 37 {
+                    rep.sample("enumerated-pair-schedule", json!({"atoms": [at[a].0, at[b].0], "order": case.shape(), "case": case.to_json()}));
+                }
+            }
+        }
+    }
+    rep.exhaustive("all schedules (request arrivals x handler gates x body gates) of all ordered pairs of the request/program atoms", complete);
+    rep.max("atoms", na as u64);
+    if ctx.thorough() {
+        let mut complete3 = true;
+        'outer: for a in 0..na {
+            for b in 0..na {
+                for c in 0..na {
+                    if at[a].1.wants_close() || at[b].1.wants_close() {
+                        continue;
+                    }
+                    let reqs = vec![at[a].1.clone(), at[b].1.clone(), at[c].1.clone()];
+                    let progs = vec![(at[a].2)(0), (at[b].2)(1), (at[c].2)(2)];
+                    // handler gates only; body gates are opened up front
+                    let mut lists: Vec<Vec<Ev>> = vec![vec![Ev::Push(0), Ev::Push(1), Ev::Push(2)]];
+                    for i in 0..3 {
+                        lists.push(vec![Ev::Gate(2 * i)]);
+                    }
+                    for mut order in interleavings(&lists, 100_000) {
+                        idx += 1;
+                        if !ctx.mine(idx) {
+                            continue;
+                        }
+                        if ctx.out_of_time() {
+                            complete3 = false;
+                            break 'outer;
+                        }
+                        let mut pre: Vec<Ev> = vec![];
+                        for (i, p) in progs.iter().enumerate() {
+                            for _ in 0..nwaits(p) {
+                                pre.push(Ev::Gate(2 * i + 1));
+                            }
+                        }
+                        pre.append(&mut order);
+                        let case = Case { cfg: ConnCfg::persistent(), reqs: reqs.clone(), progs: progs.clone(), order: pre, limited_credit: false };
+                        eval_case(&case, &mut solo, rep);
+                        rep.sig(&case_sig(&case));
+                    }
+                }
+            }
+        }
+        rep.exhaustive("all arrival x handler-gate schedules of all ordered triples of the atoms", complete3);
+    }
+
+    // ---- Phase B: random pipelines, programs and schedules
+    let n = ctx.share(40_000, 2_000_000);
+    for k in 0..n {
+        if ctx.out_of_time() {
+            break;
+        }
+        let mut rng = Rng::derive(ctx.seed, 2, k * ctx.nshards + ctx.shard);
+        let case = gen_case(&mut rng);
+        eval_case(&case, &mut solo, rep);
+        rep.sig(&case_sig(&case));
+        if k == 3 {
+            rep.sample("random-case", case.to_json());
+        }
+    }
 }
